@@ -264,6 +264,10 @@ func main() {
 				line = fmt.Sprintf("h1\t%s\t%s", p, a)
 				if test.IsSolved(&circuits.Poseidon1Circuit{}, &circuits.Poseidon1Circuit{A: a, Out: want}, p) != nil {
 					res = "gadget-rejects-reference(test-engine)"
+				} else if test.IsSolved(&circuits.Poseidon1Circuit{}, &circuits.Poseidon1Circuit{A: a, Out: want}, p, test.SetAllVariablesAsConstants()) != nil {
+					// the same hash with the inputs known at compile time (the API folds constants on
+					// other code paths than it treats wires)
+					res = "gadget-rejects-reference(test-engine, inputs as constants)"
 				} else if test.IsSolved(&circuits.Poseidon1Circuit{}, &circuits.Poseidon1Circuit{A: a, Out: wrong}, p) == nil {
 					res = "gadget-accepts-wrong-output(test-engine)"
 				} else if p == gen.BN254 {
@@ -282,6 +286,8 @@ func main() {
 				line = fmt.Sprintf("h2\t%s\t%s\t%s", p, a, b)
 				if test.IsSolved(&circuits.Poseidon2Circuit{}, &circuits.Poseidon2Circuit{A: a, B: b, Out: want}, p) != nil {
 					res = "gadget-rejects-reference(test-engine)"
+				} else if test.IsSolved(&circuits.Poseidon2Circuit{}, &circuits.Poseidon2Circuit{A: a, B: b, Out: want}, p, test.SetAllVariablesAsConstants()) != nil {
+					res = "gadget-rejects-reference(test-engine, inputs as constants)"
 				} else if test.IsSolved(&circuits.Poseidon2Circuit{}, &circuits.Poseidon2Circuit{A: a, B: b, Out: wrong}, p) == nil {
 					res = "gadget-accepts-wrong-output(test-engine)"
 				} else if p == gen.BN254 {
